@@ -169,6 +169,8 @@ func (e *Env) ProbeOracle(m *Model) []Finding {
 			case ok && r.Err != nil:
 				out = append(out, Finding{feat("clause", "registered-identity-unresolvable", "form", form, "class", r.Class),
 					fmt.Sprintf("%s: identity %s is registered (r%d) but resolution failed: %v", r.Op, id, ro.Reg, r.Err)})
+			case ok && strings.HasPrefix(kit.Describe(r.Val), "typednil"):
+				// a typed nil the constructor itself returned (fault plan "nil"); C15's subject
 			case ok:
 				in := kit.InstOf(r.Val)
 				if in == nil || in.Reg != ro.Reg || in.Out != ro.Out {
